@@ -549,6 +549,10 @@ def constant (c : R) : Dual R := ⟨c, 0⟩
 /-- `Trace::variable` (differentiation.rs:184). -/
 def mkVar (x : R) : Dual R := ⟨x, 1⟩
 
+/-- `Trace::derivative(function, x)` (differentiation.rs:200): "a shorthand for
+    `(function(Trace::variable(x))).derivative`". -/
+def derivativeOf (function : Dual R → Dual R) (x : R) : R := (function (mkVar x)).derivative
+
 /-- `Trace::unary` (differentiation.rs:230). -/
 def unary (a : Dual R) (fx dfx : R → R) : Dual R :=
   ⟨fx a.number, a.derivative * dfx a.number⟩
